@@ -19,6 +19,7 @@ UNLINTABLE_EVENTS = ("Code", "InlineMath", "DisplayMath", "Html", "InlineHtml")
 def run(ck, tier):
     _run(ck, tier)
     _scratch(ck, facts.load())
+    _gitcut(ck, facts.load())
 
 
 def _run(ck, tier):
@@ -876,3 +877,63 @@ def _scratch(ck, p):
             ck.refuted(rule, key, g.loc(sx["ln"]), "the old tree is reused with an edit whose start is one run count (the common prefix) and whose %s is a length minus another, independent run count (the common suffix): nothing keeps the two from overlapping, so for a change that repeats its surroundings ('aa' -> 'aaa', a duplicated line) the end lies before the start and tree-sitter keeps node ranges of the old text - code is offered as prose and prose is dropped" % ("old_end_byte" if k == 1 else "new_end_byte"))
         else:
             ck.undecided(rule, key, f.loc(t["ln"]), "an old tree is reused; the edit description is not of a recognised shape, whether it is faithful is not decided")
+
+
+# ---------------------------------------------------------------------------------------------------
+GIT_REVERSE = re.compile(r"::(rev|rposition|rfind|rsplit|rsplitn|rsplit_once|next_back|nth_back|rfold|last|split_last|strip_suffix|trim_end_matches|ends_with)$")
+GIT_FORWARD = ("position", "find", "find_map", "take_while", "split", "split_once", "splitn", "split_inclusive", "lines")
+
+
+def _gitcut(ck, p):
+    """git-commit files: everything from git's first comment character on is the template (and, with
+    `commit -v`, the diff).  The code's mechanism is a cut of the text at the first '#'; what must not
+    happen is (a) no cut at all, (b) a cut that is found from the *end* of the file (it stops at the
+    first non-comment line from the bottom and leaves earlier comment blocks - squash templates, the
+    verbose diff after the scissors line - in the lintable text)."""
+    rule = "R-C04-gitcut"
+    ck.rule(rule, "GitCommitParser::parse hands the inner parser a prefix of the file that starts at offset 0 (so offsets stay true) and ends where a forward search for git's comment character '#' first succeeds: not the whole file, and not a cut located by scanning from the end of the file (which leaves every comment block but the last - and, under commit -v, the diff - in the lintable text)")
+    byk = fns_by_key(p)
+    key = "<GitCommitParser as Parser>::parse"
+    fs = byk.get(key)
+    if not ck.anchor(rule, key, fs):
+        return
+    f = fs[0]
+    ck.saw(f)
+    pv = Prov(f)
+    bodies = with_closures(p, f)
+    inner = []
+    for bi, t in f.calls():
+        if method(t) == "parse" and len(t["args"]) == 2 and any(o[0] == "field" or o == ("arg", 1) for o in pv.trace_operand(t["args"][0])):
+            inner.append((bi, t))
+    ck.floor(rule, "calls of the inner parser in GitCommitParser::parse", len(inner), 1)
+    hash_cmp = any("'#'" in str(sx) or "'#'" in str(b["t"]) for g in bodies for b in g.blocks if not b["cleanup"] for sx in b["s"] + [{"t": b["t"]}])
+    rev = sorted({last(norm(inst_of(t))) for g in bodies for _, t in g.calls() if GIT_REVERSE.search(norm(inst_of(t)))})
+    fwd = sorted({method(t) for g in bodies for _, t in g.calls() if method(t) in GIT_FORWARD})
+    for bi, t in inner:
+        k = "GitCommitParser::parse:cut"
+        direct = pv.trace_operand(t["args"][1])
+        if direct and all(o == ("arg", 2) for o in direct):
+            ck.refuted(rule, k, f.loc(t["ln"]), "the whole file is handed to the inner parser: git's comment lines (and the diff under commit -v) are offered to the rules")
+            continue
+        cut = [o for o in direct if o[0] == "call" and last(o[2]) in ("index", "get", "split_at", "get_content", "unwrap", "unwrap_or", "unwrap_or_default", "0")]
+        if not cut:
+            ck.undecided(rule, k, f.loc(t["ln"]), "the text handed to the inner parser is not a recognised cut of the source (%s)" % sorted(str(o[2]) if o[0] == "call" else str(o[0]) for o in direct)[:4])
+            continue
+        starts = []
+        for o in direct:
+            if o[0] != "call":
+                continue
+            ct = f.blocks[o[1]]["t"]
+            if len(ct["args"]) >= 2:
+                for r in pv.trace_operand(ct["args"][1]):
+                    if r[0] == "agg" and "Range" in str(r[2]) and len(r[3]) == 2:
+                        starts.append(r[3][0])
+        if starts and not all(st == frozenset({("const", "0")}) for st in starts):
+            ck.undecided(rule, k, f.loc(t["ln"]), "the cut does not start at offset 0; whether the inner tokens are re-based is not decided here")
+            continue
+        if rev:
+            ck.refuted(rule, k, f.loc(t["ln"]), "the end of the lintable text is located by scanning from the end of the file (%s): that finds the last block of comment lines only - an earlier comment block (the template of a squash / rebase message) or anything that follows the comment block (the scissors line and the diff of commit -v) stays in the text handed to the inner parser" % ", ".join(rev))
+        elif hash_cmp and fwd:
+            ck.proved(rule, k, f.loc(t["ln"]), "source[0..end] with end from a forward search (%s) for '#' (whole length if there is none)" % ", ".join(fwd))
+        else:
+            ck.undecided(rule, k, f.loc(t["ln"]), "the cut is not located by a recognised forward search for '#' (forward searches seen: %s; comparison with '#': %s)" % (fwd, hash_cmp))
